@@ -278,7 +278,11 @@ class SolarRadiation:
     # Reduce the magnitude of the result to avoid loss of precision errors
     # downstream. Avoid jnp.fmod, which is not very precise on float32.
     orbital_time -= orbital_time // (2 * jnp.pi) * (2 * jnp.pi)
-    return orbital_time
+    # For tiny negative phases the subtraction above rounds to exactly 2 * pi;
+    # map that value to the equivalent phase 0 to keep the result in [0, 2pi).
+    return jax.tree_util.tree_map(
+        lambda x: jnp.where(x >= 2 * jnp.pi, 0.0, x), orbital_time
+    )
 
   def solar_hour_angle(self, time: Numeric) -> jnp.ndarray:
     """Returns solar hour angle in radians."""
